@@ -478,6 +478,31 @@ pub fn generated_programs(r: &Report) -> Vec<Prog> {
                 if leaves.len() >= 4 && rec2.steps[1].operands().len() < 3 {
                     continue;
                 }
+                // depth 3 "planner chains": a product, then two more steps (local operations postponing / forcing the
+                // resharing of the 3-out-of-3 product); family 0 in quick, families 0-1 in thorough
+                if leaves.len() == 2 && (fi == 0 || (thorough && fi == 1)) && matches!(rec.steps[0], gen::Step::Mul(0, 1) | gen::Step::Dot(0, 1)) {
+                    let chain_op = |st: &gen::Step| {
+                        use gen::Step::*;
+                        matches!(st, Add(_, _) | Sub(_, _) | Mul(_, _) | Sum(_, _) | Get(_, _) | Slice(_, 0) | Reshape(_, _) | Concat(_, _, 0) | Stack(_, _) | Tuple(_, _) | TupleGet(_, _) | A2V(_))
+                    };
+                    if !chain_op(&rec2.steps[1]) || matches!(rec2.steps[1], gen::Step::Mul(_, _)) {
+                        // second step must be local
+                    } else if let Ok(b2) = gen::build(&rec2) {
+                        for (rec3, _) in gen::extend(&rec2, &b2.types) {
+                            if !chain_op(&rec3.steps[2]) {
+                                continue;
+                            }
+                            if seen.insert(rec3.desc()) {
+                                let mut p = recipe_prog(&rec3);
+                                let c = covering_owners(n_inputs);
+                                p.owners = Some(vec![c[0].clone(), c[3].clone(), c[4].clone()]);
+                                p.outs = Some(vec![vec![], vec![1]]);
+                                progs.push(p);
+                                r.count("programs_depth3", 1);
+                            }
+                        }
+                    }
+                }
                 if seen.insert(rec2.desc()) {
                     let mut p = recipe_prog(&rec2);
                     if thorough && n_inputs >= 3 {
@@ -523,7 +548,7 @@ pub fn run_engine(r: &Report, which: Which, progs: Vec<Prog>, b: &Budget) {
     }
     r.count("tasks", tasks.len() as u64);
     if std::env::var("VERIF_DRY").is_ok() {
-        eprintln!("programs={} tasks={} d1={} d2={}", r.get("programs"), tasks.len(), r.get("programs_depth1"), r.get("programs_depth2"));
+        eprintln!("programs={} tasks={} d1={} d2={} d3={}", r.get("programs"), tasks.len(), r.get("programs_depth1"), r.get("programs_depth2"), r.get("programs_depth3"));
         return;
     }
     if let Ok(m) = std::env::var("VERIF_MAX_TASKS") {
